@@ -36,7 +36,7 @@ ASSUMPTIONS = [
 ]
 PROBES = ["earlier page ends inside a path", "colour space from resources", "undefined colour space name", "two documents in sequence", "polyline revisits a vertex", "painted path without moveto", "q nesting beyond 28", "sc in current colour space", "open four-segment polyline", "rect via re", "rect via mlllh", "rect reversed orientation", "quadrilateral not axis-aligned after CTM", "line ml", "line mlh", "curve with c/v/y", "several subpaths in one path", "path ended by n", "lone moveto", "q/Q nesting >= 3", "unbalanced Q", "colour space switch inside q/Q", "dash pattern", "close-and-paint operator", "split into >1 streams"]
 TIERS = {
-    "quick": {"batches": 16, "runs": 1200, "budget_s": 45},
+    "quick": {"batches": 16, "runs": 1200, "budget_s": 90},
     "thorough": {"batches": 128, "runs": 8000, "budget_s": 900},
 }
 DETERMINISM_SLICE = 4
